@@ -49,6 +49,13 @@ var zooConfigs = []string{
 	  {"match":[{"query":{"q":["{env.VERIF_C18_ZOO_ADMIN}"]}}],"handle":[{"handler":"static_response","body":"ADMIN-AREA"}],"terminal":true},
 	  {"handle":[{"handler":"error","status_code":"418","error":"msg {http.request.header.X-In}"}]}
 	],"errors":{"routes":[{"handle":[{"handler":"static_response","body":"err={http.error.message} code={http.error.status_code} xin={http.request.header.X-In}"}]}]}}}}`,
+	// 3: rewrite idioms with an empty query part ("strip the query"), then the rewritten URI is echoed
+	`{"servers":{"s":{"listen":[":0"],"automatic_https":{"disable":true},"routes":[
+	  {"match":[{"path":["/f/*"]}],"handle":[{"handler":"rewrite","uri":"/files/{http.request.uri.path.file}?"}]},
+	  {"match":[{"path":["/u/*"]}],"handle":[{"handler":"rewrite","uri":"/x{http.request.uri}?"}]},
+	  {"match":[{"path":["/d/*"]}],"handle":[{"handler":"rewrite","uri":"{http.request.uri.path.dir}index?#{http.request.uri.path.file}"}]},
+	  {"handle":[{"handler":"static_response","body":"uri={http.request.uri} q={http.request.uri.query} path={http.request.uri.path}"}]}
+	]}}}`,
 }
 
 const zooAdmin = "ADM1N-T0KEN-5512"
@@ -145,7 +152,8 @@ func zooServer(cfgIdx int) (*caddyhttp.Server, func(), error) {
 func genZoo(rng *core.Rand, emit func(string)) {
 	av := append(attackerValues(), "{env.VERIF_C18_ZOO_ADMIN}", zooAdmin, "{http.regexp.r.1}", "{http.error.message}", "{m}", "{http.request.cookie.c}")
 	paths := []string{"/", "/p", "/{env." + secretEnv + "}", "/a/{http.vars.v}", "/{zz.unk}", "/{env.VERIF_C18_ZOO_ADMIN}",
-		"/x%7Benv." + secretEnv + "%7D", "/{file." + fileToken + "}", "/a\\{b"}
+		"/x%7Benv." + secretEnv + "%7D", "/{file." + fileToken + "}", "/a\\{b",
+		"/f/a%3Fq=%7Benv." + secretEnv + "%7D", "/u/a%3F%7Benv." + secretEnv + "%7D", "/d/x%3F%7Benv." + secretEnv + "%7D", "/f/%3F{env." + secretEnv + "}"}
 	hosts := []string{"example.test", "{env." + secretEnv + "}", "example.test:80"}
 	cookieVals := []string{"", "plain", "{env." + secretEnv + "}", "{http.vars.v}"}
 	pickReq := func() string {
@@ -237,6 +245,7 @@ func runZoo(line string, f []string) core.Outcome {
 }
 
 func zooCleanup() {
+	os.Remove(rwFile)
 	if zooDir != "" {
 		os.RemoveAll(zooDir)
 	}
